@@ -262,6 +262,44 @@ def check(chk, repo, tier):
         chk.ob("C11.scope-push", f"{label} template", ok, why, TF,
                sample={"structure": label})
 
+    # ---- implicit reads happen while the call's own scope is still pushed --------------
+    probes = [
+        ("Lambda/normal-exit", gen.struct("Lambda", 1, Hole("body"))),
+        ("Lambda/break", gen.struct("Lambda", 1, [gen.struct(
+            "BreakStatement", gen.cls("Lambda"))])),
+        ("FunctionDef/normal-exit", gen.struct(
+            "FunctionDef", "f", ["1"], Hole("body"))),
+        ("FunctionDef/break-arm", gen.struct("Lambda", 1, [gen.struct(
+            "BreakStatement", gen.cls("FunctionDef"))])),
+    ]
+    for label, struct in probes:
+        text = gen.transpile_ast([struct], 0)
+        tree = ast.parse(text)
+        for d in ast.walk(tree):
+            if not isinstance(d, ast.FunctionDef):
+                continue
+            popped = False
+            bad = None
+            for st in d.body:
+                txt = norm(ast.unparse(st))
+                reads = [c for c in ast.walk(st) if isinstance(c, ast.Call)
+                         and dotted(c.func) in ("pop", "get_input", "wrapify")
+                         and c.args and ast.unparse(c.args[0]) in (
+                             "stack", "ctx")]
+                if popped and reads:
+                    bad = st
+                if "ctx.inputs.pop()" in txt:
+                    popped = True
+                if isinstance(st, ast.Return):
+                    popped = False  # what follows belongs to another path
+            chk.ob("C11.reads-before-scope-pop", label, bad is None,
+                   f"`{ast.unparse(bad)[:50] if bad else ''}` may read an "
+                   "implicit input after the call's own input scope was "
+                   "popped: the value comes from the caller's scope and "
+                   "advances the caller's cursor", TF,
+                   witness="λ_X;† ? with inputs 10 20 30",
+                   sample={"template": label})
+
     chk.explanation = (
         "Clause-level: get_input's reads have the cyclic shape "
         "S[0][S[1] % len(S[0])] on one scope S, each followed by exactly one "
